@@ -4,7 +4,6 @@ import (
 	"encoding/binary"
 	"fmt"
 	"math"
-	"os"
 	"path/filepath"
 	"time"
 )
@@ -367,7 +366,7 @@ func makeCRC32CTable() [256]uint32 {
 
 // ReadControlFile reads and parses pg_control from data directory
 func ReadControlFile(dataDir string) (*ControlFile, error) {
-	data, err := os.ReadFile(filepath.Join(dataDir, "global", "pg_control"))
+	data, err := readRegularFile(filepath.Join(dataDir, "global", "pg_control"))
 	if err != nil {
 		return nil, err
 	}
